@@ -293,6 +293,17 @@ class Parser:
         self.eat("{")
         stmts, tail = [], None
         while not self.at("}"):
+            if self.at("let") and self.peek(1)[1] == "Some" and self.peek(2)[1] == "(":
+                self.i += 3
+                name = self.ident()
+                self.eat(")")
+                self.eat("=")
+                e = self.expr(no_struct=True)
+                self.eat("else")
+                eb = self.block()
+                self.eat(";")
+                stmts.append(("letelse", name, e, eb))
+                continue
             if self.at("let"):
                 self.i += 1
                 mut = self.opt("mut")
@@ -702,6 +713,14 @@ class Gen:
             if e[1][1] not in self.enums[e[1][0]]:
                 raise Unsupported(f"unknown variant {e[1]}")
             return (f"{e[1][0]}.{e[1][1]}", e[1][0])
+        st_ = self.storage_get(e)
+        if st_ is not None:
+            return st_
+        if e[0] == "mcall" and e[2] == "unwrap_or" and len(e[3]) == 1:
+            inner = self.storage_get(self.strip(e[1]))
+            if inner is not None:
+                d, dt = self.pure(e[3][0], env)
+                return (f"(Option.getD {inner[0]} {d})", inner[1][7:-1])
         if e == ("mcall", ("mcall", ("var", "e"), "ledger", []), "sequence", []) and "ledger_sequence" in getattr(self, "reads", {}):
             self.uses_reads = True
             return ("envr.ledger_sequence", self.reads["ledger_sequence"])
@@ -732,6 +751,21 @@ class Gen:
             b, bt = self.pure(self.block_expr(e[3]), env)
             return (f"(if {c} then {a} else {b})", at if at != "int" else bt)
         raise Unsupported(f"not a pure expression: {e[0]} {e[1] if len(e) > 1 and isinstance(e[1], str) else ''}")
+
+    def storage_get(self, e):
+        """`e.storage().instance()/persistent()/temporary().get(&Key::Variant)` (optionally typed `get::<_, T>`)
+        → the field `get_<Variant>` of the reads record, an `Option`"""
+        if e[0] == "mcall" and e[2] == "get" and len(e[3]) == 1:
+            r = self.strip(e[1])
+            if r[0] == "mcall" and r[2] in ("instance", "persistent", "temporary") and not r[3] \
+                    and self.strip(r[1]) == ("mcall", ("var", "e"), "storage", []):
+                key = self.strip(e[3][0])
+                if key[0] == "path":
+                    name = "get_" + key[1][-1]
+                    if name in getattr(self, "reads", {}):
+                        self.uses_reads = True
+                        return (f"envr.{name}", self.reads[name])
+        return None
 
     def block_expr(self, b):
         if b is None:
@@ -1010,6 +1044,16 @@ class Gen:
             s = stmts[i]
             if s[0] == "let":
                 return self.tr(s[3], env, lambda a, t: go(i + 1, dict(env, **{s[1]: (a, t)})), ret)
+            if s[0] == "letelse":
+                eb = self.as_stmts(s[3])
+                def kle(a, t):
+                    if not t.startswith("Option<"):
+                        raise Unsupported("let-else on " + t)
+                    def none_code():
+                        return self.tr_stmts(eb[1], env, lambda _env: (_ for _ in ()).throw(Unsupported("let-else block that does not diverge")), ret) \
+                            if eb[2] is None else self.tr(eb[2], env, None, ret)
+                    return f"(optCase {a}\n (fun {s[1]} =>\n {go(i + 1, dict(env, **{s[1]: (s[1], t[7:-1])}))})\n ({none_code()}))"
+                return self.tr(s[2], env, kle, ret)
             if s[0] == "assign":
                 lhs = self.strip(s[1])
                 if lhs[0] != "var" or lhs[1] not in env:
@@ -1157,6 +1201,11 @@ FILES_FEE = [
     ("Fee", "packages/fee-abstraction/src/storage.rs", ["validate_fee_bounds", "validate_expiration_ledger"]),
 ]
 READS_FEE = {"Fee": {"ledger_sequence": "u32"}}
+
+FILES_CAP = [
+    ("Capped", "packages/tokens/src/fungible/extensions/capped/storage.rs", ["query_cap", "check_cap"]),
+]
+READS_CAP = {"Capped": {"get_Cap": "Option<i128>", "get_TotalSupply": "Option<i128>"}}
 
 FILES_WEBAUTHN = [
     ("WebAuthn", "packages/accounts/src/verifiers/webauthn.rs",
@@ -1568,7 +1617,9 @@ def main():
                 sys.stdout.write(txt)
         sys.exit(rc)
     try:
-        if "--fee" in sys.argv:
+        if "--cap" in sys.argv:
+            txt = translate(repo, FILES_CAP, reads=READS_CAP)
+        elif "--fee" in sys.argv:
             txt = translate(repo, FILES_FEE, reads=READS_FEE)
         elif "--timelock" in sys.argv:
             txt = translate(repo, FILES_TIMELOCK, reads=READS_TIMELOCK)
